@@ -178,7 +178,7 @@ theorem stepX_ds (o : Opts) (s : RState) (m : Message) (h : LineOK o s.ds m) : (
       split <;> split <;> (try split) <;> rfl
 
 /-- **reading the line of a message within scope** -/
-theorem readLine_scope (o : Opts) (hdeg : o.degrees = false) (s : RState) (m : Message) (h : LineOK o s.ds m) :
+theorem readLine_scope (o : Opts) (s : RState) (m : Message) (h : LineOK o s.ds m) :
     readLine Arith.so s (writeMesg o s.ds m).1 = .ok (stepX o s m) := by
   have hline : (writeMesg o s.ds m).1 =
       .data (mesgNameOf o m.num) (m.fields.map (writeField o m) ++ m.devFields.map (writeDev o (writeMesg o s.ds m).2)) := rfl
@@ -190,7 +190,7 @@ theorem readLine_scope (o : Opts) (hdeg : o.degrees = false) (s : RState) (m : M
           .ok (backMesgOf o m) := by
       intro s1 hs1
       rw [hs1]
-      exact createMesg_scope o hdeg s.ds _ h.nosub m h.scope h.devs
+      exact createMesg_scope o s.ds _ h.nosub m h.scope h.devs
     have hemp : (m.fields.map (writeField o m) ++ m.devFields.map (writeDev o (writeMesg o s.ds m).2)).isEmpty = true →
         ((backFields o m).isEmpty && m.devFields.isEmpty) = true := by
       intro he
@@ -261,13 +261,13 @@ theorem dsAfter_append (o : Opts) : ∀ (A B : List Message) (ds : List Desc), d
   | [], _, _ => rfl
   | a :: A, B, ds => dsAfter_append o A B _
 
-theorem readLines_scope (o : Opts) (hdeg : o.degrees = false) : ∀ (ms : List Message) (s : RState), ChainOK o s.ds ms →
+theorem readLines_scope (o : Opts) : ∀ (ms : List Message) (s : RState), ChainOK o s.ds ms →
     readLines Arith.so s (writeMesgs o s.ds ms) = .ok (ms.foldl (stepX o) s)
   | [], _, _ => rfl
   | m :: ms, s, h => by
-    have h1 := readLine_scope o hdeg s m h.1
+    have h1 := readLine_scope o s m h.1
     have h2 := stepX_ds o s m h.1
-    have ih := readLines_scope o hdeg ms (stepX o s m) (by rw [h2]; exact h.2)
+    have ih := readLines_scope o ms (stepX o s m) (by rw [h2]; exact h.2)
     simp only [writeMesgs, readLines, h1, List.foldl_cons]
     rw [h2] at ih
     exact ih
